@@ -765,6 +765,13 @@ void eval_instruction (const char *p) {
         neolith_verif_insn_hook ();
 #endif
       instruction = EXTRACT_UCHAR (pc++);
+      /* most instructions push one or two values without checking; the
+       * stack keeps a few slots of slack for them (see reset_interpreter) */
+      if (sp >= end_of_stack)
+        {
+          set_error_state (ES_STACK_FULL);
+          error ("***Stack overflow!");
+        }
       if (!--eval_cost)
         {
           /* [NEOLITH-EXTENSION] allows eval_instruction without current_object */
@@ -784,6 +791,7 @@ void eval_instruction (const char *p) {
         {
         case F_PUSH:		/* Push a number of things onto the stack */
           n = EXTRACT_UCHAR (pc++);
+          STACK_CHECK (n);
           while (n--)
             {
               i = EXTRACT_UCHAR (pc++);
@@ -1589,6 +1597,7 @@ void eval_instruction (const char *p) {
 
             arr = s->u.arr;
             n = arr->size;
+            STACK_CHECK (n);
             num_varargs += n - 1;
             if (!n)
               {
